@@ -236,6 +236,98 @@ func runC12(ctx *Ctx, idx int) {
 	if pv != nil {
 		viol("panic", curq, map[string]interface{}{"panic": fmt.Sprint(pv), "stack": stack})
 	}
+	// A SlimIndex is loaded the way a SlimTrie is: Unmarshal into an existing
+	// object. The receiver has a history of its own - built by NewSlimIndex from
+	// no items, from one offset per key, or from a sparse set, and loaded before;
+	// what it answers after the load depends on the stream and the reader only.
+	// And a by-value copy of an index (a snapshot handed to readers) stays what
+	// it was when the object it was copied from loads something else.
+	if n > 0 && n <= 20000 && !overLimit {
+		check := func(x *index.SlimIndex, inst string) bool {
+			okAll := true
+			pv, stack := try(func() {
+				for qi, q := range qs {
+					if qi >= 600 {
+						break
+					}
+					curq = q
+					var got string
+					var found bool
+					if sparse {
+						got, found = x.RangeGet(q)
+					} else {
+						got, found = x.Get(q)
+					}
+					i, isKey := present[q]
+					if isKey != found || (isKey && got != fmt.Sprintf("rec-%d", i)) || (!isKey && got != "") {
+						viol("loaded-index-differs", q, map[string]interface{}{"instance": inst, "found": found, "observed": got, "indexed": isKey})
+						okAll = false
+						return
+					}
+				}
+			})
+			if pv != nil {
+				viol("panic", curq, map[string]interface{}{"instance": inst, "panic": fmt.Sprint(pv), "stack": stack})
+				return false
+			}
+			return okAll
+		}
+		var stream []byte
+		try(func() { stream, _ = si.Marshal() })
+		if stream != nil {
+			for ri := 0; ri < 3; ri++ {
+				if (idx+ri)%3 != 0 && n > 2000 {
+					continue
+				}
+				var recv *index.SlimIndex
+				var rerr error
+				kind := []string{"built from no items", "built with one offset per key", "built from a sparse set"}[ri]
+				pv, _ := try(func() {
+					switch ri {
+					case 0:
+						recv, rerr = index.NewSlimIndex(nil, rd)
+					case 1:
+						recv, rerr = index.NewSlimIndex([]index.OffsetIndexItem{{Key: "k1", Offset: 1}, {Key: "k2", Offset: 2}, {Key: "k3", Offset: 7}}, rd)
+					default:
+						recv, rerr = index.NewSlimIndex([]index.OffsetIndexItem{{Key: "k1", Offset: 1}, {Key: "k2", Offset: 1}, {Key: "k3", Offset: 1}, {Key: "k4", Offset: 9}}, rd)
+					}
+					if rerr != nil || recv == nil {
+						return
+					}
+					recv.RangeGet("k2")
+					recv.Get("k3")
+					rerr = recv.Unmarshal(stream)
+				})
+				if pv != nil || rerr != nil || recv == nil {
+					viol("load-failed", "", map[string]interface{}{"receiver": kind, "panic": fmt.Sprint(pv), "error": fmt.Sprint(rerr)})
+					continue
+				}
+				if check(recv, "loaded into a receiver "+kind) {
+					ctx.Count("loaded_into_receivers_with_a_history", 1)
+				}
+			}
+			// snapshot copy, then the original moves on
+			snap := *si
+			try(func() {
+				other, _ := index.NewSlimIndex([]index.OffsetIndexItem{{Key: "p", Offset: 3}, {Key: "q", Offset: 3}, {Key: "r", Offset: 5}}, rd)
+				ob, _ := other.Marshal()
+				switch idx % 3 {
+				case 0:
+					si.Unmarshal(ob)
+				case 1:
+					si.Unmarshal(ob[:len(ob)/2])
+					si.Reset()
+				default:
+					si.Unmarshal(ob)
+					si.Unmarshal(stream)
+				}
+			})
+			if check(&snap, "by-value copy taken before the original loaded other data") {
+				ctx.Count("snapshot_copies_outlive_reloads", 1)
+			}
+			si = &snap // (the survivor kept for the next case is the copy)
+		}
+	}
 	// the index of the previous case is still alive: it must answer as before
 	// now that another index has been built
 	if prev, ok := c12Survivor[ctx]; ok && prev != nil {
@@ -920,7 +1012,7 @@ func init() {
 		},
 		Run:           runC12,
 		MinNontrivial: func(tier string) int { return 500 },
-		Gates:         shapeGates("cases:sparse", "cases:dense", "queries:indexed", "queries:absent", "reader_reads", "survivor_rechecks"),
+		Gates:         shapeGates("cases:sparse", "cases:dense", "queries:indexed", "queries:absent", "reader_reads", "survivor_rechecks", "loaded_into_receivers_with_a_history", "snapshot_copies_outlive_reloads"),
 		Assumptions:   []string{"the verifying reader in harness/chk_misc.go models 'a data reader that verifies the record key'"},
 	})
 	register(&CheckDef{
